@@ -220,6 +220,10 @@ def wrap_ufunc_productspace(name, n_in, n_out, doc):
     elif n_in == 2:
         if n_out == 1:
             def wrapper(self, x2, out=None, **kwargs):
+                if (isinstance(out, tuple) and len(out) == 1 and
+                        out[0] in self.elem.space):
+                    # NumPy-style tuple form ``out=(o,)``
+                    out = out[0]
                 if x2 in self.elem.space:
                     if out is None:
                         result = [getattr(x.ufuncs, name)(x2p, **kwargs)
